@@ -23,6 +23,7 @@ type Outcome struct {
 	Died    bool   // the child process died while running the case
 	Hung    bool   // the child did not finish the case within the time limit
 	Details string // last output of the child
+	Skipped bool   // not run because the run was given up after too many failures
 }
 
 // ChildCases returns the cases to run when the process is a child (nil
@@ -59,6 +60,12 @@ func ChildEnd(i int, result string) {
 // perCase is the time limit for a single case; memMB limits the child's
 // address space (0: no limit).
 func Run(cases [][]byte, perCase time.Duration, memMB int) []Outcome {
+	return RunLimited(cases, perCase, memMB, 0)
+}
+
+// RunLimited is Run, but gives up after maxFailures cases hung or killed the
+// child (0: no limit); the remaining cases are returned with Skipped set.
+func RunLimited(cases [][]byte, perCase time.Duration, memMB int, maxFailures int) []Outcome {
 	out := make([]Outcome, len(cases))
 	dir, err := os.MkdirTemp("", "isolate-")
 	if err != nil {
@@ -70,10 +77,20 @@ func Run(cases [][]byte, perCase time.Duration, memMB int) []Outcome {
 	os.WriteFile(file, data, 0o644)
 
 	start := 0
+	failures := 0
 	for start < len(cases) {
 		next := runChild(file, start, len(cases), perCase, memMB, out)
 		if next <= start {
 			next = start + 1
+		}
+		if next-1 < len(out) && (out[next-1].Hung || out[next-1].Died) {
+			failures++
+			if maxFailures > 0 && failures >= maxFailures {
+				for i := next; i < len(out); i++ {
+					out[i].Skipped = true
+				}
+				break
+			}
 		}
 		start = next
 	}
